@@ -9,6 +9,7 @@ C31 driver.  All byte strings travel as lowercase hex (`-` = empty).
   vfs <fx T|F> <rcp> <cp>     VfsRequest.translate_client_path
   clone <rel>                 path part of backing.clone(rel).base   → <hex>
   xu <base> <tbl> <path>      _expand_userdirs with expanduser over <tbl>
+                              (a base written `!<hex>` selects the proposed-fix variant, here and below)
   loc <rootdir> <base|~> <tbl> <clonerel> <rel>
                               → bk=<hex> os=<ok:hex|E:…> loc=<hex of "/"+segments>
   jail <~ | url,url…> <url>   _pre_open_hook                           → T | F
@@ -37,14 +38,18 @@ def parseTbl (s : String) : Option (List (Bytes × Bytes)) :=
 def parseBase (s : String) : Option (Option Bytes) :=
   if s == "~" then some none else (fromHex s).map some
 
+/-- `!<hex>` selects the proposed-fix variant of `_expand_userdirs` -/
+def parseBaseV (s : String) : Option (Option Bytes × Bool) :=
+  if s.startsWith "!" then (parseBase (s.drop 1).toString).map (·, true) else (parseBase s).map (·, false)
+
 def absPath (segs : List Seg) : Bytes := SL :: joinSl segs
 
-def mkCfg (rootDir : Bytes) (base : Option Bytes) (tbl : List (Bytes × Bytes)) : Cfg :=
+def mkCfg (rootDir : Bytes) (basev : Option Bytes × Bool) (tbl : List (Bytes × Bytes)) : Cfg :=
   { rootDir := (splitSl rootDir).filter (· ≠ []),
-    basePath := base,
-    filter := fun p => match base with
+    basePath := basev.1,
+    filter := fun p => match basev.1 with
       | none => p
-      | some b => expandUserdirs (expanduser tbl) b p }
+      | some b => if basev.2 then expandUserdirsFx (expanduser tbl) b p else expandUserdirs (expanduser tbl) b p }
 
 def handle : List String → String
   | ["jp", p] => match fromHex p with
@@ -65,11 +70,12 @@ def handle : List String → String
   | ["clone", rel] => match fromHex rel with
     | some rel => toHex (stkPath (combine [] rel))
     | none => "bad-op"
-  | ["xu", base, tbl, p] => match fromHex base, parseTbl tbl, fromHex p with
-    | some base, some tbl, some p => toHex (expandUserdirs (expanduser tbl) base p)
+  | ["xu", base, tbl, p] => match parseBaseV base, parseTbl tbl, fromHex p with
+    | some (some base, fx2), some tbl, some p =>
+      toHex (if fx2 then expandUserdirsFx (expanduser tbl) base p else expandUserdirs (expanduser tbl) base p)
     | _, _, _ => "bad-op"
   | ["loc", rootDir, base, tbl, crel, rel] =>
-    match fromHex rootDir, parseBase base, parseTbl tbl, fromHex crel, fromHex rel with
+    match fromHex rootDir, parseBaseV base, parseTbl tbl, fromHex crel, fromHex rel with
     | some rootDir, some base, some tbl, some crel, some rel =>
       let cfg := mkCfg rootDir base tbl
       let stk := combine [] crel
@@ -90,7 +96,7 @@ def handle : List String → String
     | some p => showBool (normalisedUrl p)
     | none => "bad-op"
   | ["jurl", rootDir, base, tbl, pfx, jail, p, rel] =>
-    match fromHex rootDir, parseBase base, parseTbl tbl, fromHex pfx, fromHex p, fromHex rel with
+    match fromHex rootDir, parseBaseV base, parseTbl tbl, fromHex pfx, fromHex p, fromHex rel with
     | some rootDir, some base, some tbl, some pfx, some p, some rel =>
       let jl : Option (Option (List Bytes)) :=
         if jail == "~" then some none
